@@ -78,12 +78,18 @@ static Boolean IsWRegCore(char const* pArg, LongWord* pValue) {
         return False;
     }
 
-    *pValue = ConstLongInt(pArg + 1, &OK, 10);
-    if (!OK) {
-        return False;
+    {
+        /* compare before narrowing: R4294967297 is not R1 */
+
+        LargeInt Num = ConstLongInt(pArg + 1, &OK, 10);
+
+        if (!OK || (Num < 0) || (Num >= 32)) {
+            return False;
+        }
+        *pValue = (LongWord)Num;
     }
 
-    return (*pValue < 32);
+    return True;
 }
 
 /*!------------------------------------------------------------------------
